@@ -8,6 +8,8 @@ package main
 import (
 	"fmt"
 	"go/ast"
+	"go/parser"
+	"go/token"
 	"strconv"
 	"strings"
 )
@@ -77,7 +79,44 @@ func callArgs(fn, callee string) [][]string {
 	return r
 }
 
+// topStmts renders the top-level statements of fn, string literals blanked and whitespace
+// collapsed (as normText); of a for/range statement only the header is kept (what the loop bodies
+// do is the subject of the call facts).  This is what the model of destinations that are not
+// fresh was written from: which array / map the function goes on to fill.
+func topStmts(fn string) []string {
+	f, fd := funcDecl(c20file, "", fn)
+	if fd == nil {
+		return []string{"<missing " + fn + ">"}
+	}
+	fset := token.NewFileSet()
+	g, err := parser.ParseFile(fset, "x.go", "package x\n"+exprText(f.fset, fd), 0)
+	if err != nil {
+		return []string{"<unparsable>"}
+	}
+	ast.Inspect(g, func(n ast.Node) bool {
+		if bl, ok := n.(*ast.BasicLit); ok && bl.Kind == token.STRING {
+			bl.Value = `""`
+		}
+		return true
+	})
+	var r []string
+	for _, st := range g.Decls[0].(*ast.FuncDecl).Body.List {
+		switch s := st.(type) {
+		case *ast.RangeStmt:
+			r = append(r, fmt.Sprintf("for %s, %s := range %s", exprText(fset, s.Key), exprText(fset, s.Value), exprText(fset, s.X)))
+			continue
+		case *ast.ForStmt:
+			r = append(r, fmt.Sprintf("for %s; %s; %s", exprText(fset, s.Init), exprText(fset, s.Cond), exprText(fset, s.Post)))
+			continue
+		}
+		r = append(r, strings.Join(strings.Fields(exprText(fset, st)), " "))
+	}
+	return r
+}
+
 func factsC20() {
+	fmt.Fprintf(&out, "Definition f_c20_slice_stmts : list string := %s.\n", strList(topStmts("convertSlice")))
+	fmt.Fprintf(&out, "Definition f_c20_map_stmts : list string := %s.\n", strList(topStmts("convertMap")))
 	emitN("f_c20_int_size", uint64(strconv.IntSize))
 	fmt.Fprintf(&out, "Definition f_c20_kind_switch : list (list string * list string) := %s.\n", kindSwitch("", "convertFrom", "v.Kind()"))
 	fmt.Fprintf(&out, "Definition f_c20_asint64_switch : list (list string * list string) := %s.\n", kindSwitch("", "AsInt64", "w.Kind()"))
